@@ -120,6 +120,12 @@ Theorem emitted_spelling : forall db cites m k c,
 Proof. exact emitted_spelling_lemma. Qed.
 Print Assumptions emitted_spelling.
 
+(* ... and so does the Python engine (it emits entry.key) *)
+Theorem py_emitted_spelling : forall db cites m k c,
+  consistent cites -> In k (fst (py_engine_raw db cites m)) -> In c cites -> keyb c k = true -> k = c.
+Proof. exact py_emitted_spelling_lemma. Qed.
+Print Assumptions py_emitted_spelling.
+
 (* both engines' front ends select the same entries in the same order (up to letter case) *)
 Theorem engines_agree : forall db cites m,
   map lower (fst (py_engine_raw db cites m)) = map lower (fst (command_read_raw db cites m)).
@@ -158,6 +164,14 @@ Theorem filtered_reports_equal : forall db cites m, parents_follow_children db c
   map lowpair (badxref_reports (snd (select_unfiltered db cites m))).
 Proof. exact filtered_reports. Qed.
 Print Assumptions filtered_reports_equal.
+(* and what the whole reading reports as a bad cross-reference is dangling in the FILE: the first entry of
+   that key has this crossref and no entry of the file has the target key *)
+Theorem whole_dangling_is_dangling_in_file : forall db cites m c p,
+  In (c, p) (badxref_reports (snd (select_unfiltered db cites m))) ->
+  (exists e, find (fun e => keyb c (fst e)) db = Some e /\ snd e = Some p) /\
+  existsb (keyb p) (map fst db) = false.
+Proof. exact whole_dangling_file_lemma. Qed.
+Print Assumptions whole_dangling_is_dangling_in_file.
 (* the hypothesis is met by a non-trivial database (child before parent, threshold 2, mixed case) and is
    exactly what the F13 witness violates *)
 Example pfc_example :
